@@ -282,6 +282,19 @@ fn c13(quick: bool) -> PropRun {
             scs.push(spec("C13.fast-cadence", &cfg, &si, env, if quick { 1 } else { 2 }, oracles));
         }
     }
+    // the flush allowance is capped at rate x RTT estimate: a long link fills it (40 kB at 100 kB/s and 400 ms), the latency then drops to one
+    // round while only a trickle flows (the estimate follows over some tens of feedbacks), and a backlog arrives: nothing saved up under
+    // the old estimate may be spent
+    {
+        let cfg = LwCfg { pwin: 4096, fwin: 4096, bw: [100_000, 100_000], latency: 10, ..LwCfg::small() };
+        let mut ops: Vec<Op> = (0..215).map(|i| send(0, 0, (i % 2) as u8, if i % 2 == 0 { Reliable } else { Unreliable }, 1400)).collect();
+        for r in (300..720).step_by(4) { ops.push(send(r, 0, 2, Unreliable, 20)); }
+        for i in 0..110 { ops.push(send(720, 0, (i % 2) as u8, if i % 2 == 0 { Reliable } else { Unreliable }, 1400)); }
+        let si = Arc::new(ScriptInfo::new(ops));
+        let env = LwEnv { fates: &[Fate::Deliver], deltas: &[20], dev_rounds: if quick { 40 } else { 200 }, dev_start: 300, max_rounds: 1100, skip_choice: false, flush_choice: false,
+                          blackouts: &[], stop_when_idle: false, fair_delta: 20, slow_after: usize::MAX, slow_delta: 250, fuel: 2_000_000, shifts: &[Shift::Latency(1), Shift::Latency(3)] };
+        scs.push(spec("C13.rtt-drop-then-backlog", &cfg, &si, env, 1, oracles));
+    }
     scs.push(crate::props_ew::c13_endpoint_scenario());
     PropRun { level: "model_checking", scenarios: scs, units: vec![], replay_case: None, summary: lw_summary(
         "every pair of emission instants of every execution is checked against bytes <= C*(dt + RTT*) + 1472 (no rounding allowance), C = the connection's negotiated ceiling, RTT* = the largest estimate reported from the step before the interval to its end",
